@@ -3,7 +3,7 @@ Decided structurally (see DESIGN.md §4 C12): R1 second-level header offset agre
 R2 mask = layout (shared with C04-R4), R3 rewrite confined, R4 unknown uuid writes nothing."""
 import re
 from lib import *
-import ref
+import ref, layout
 
 PROPERTY = "C12"
 EXPLANATION = ("Static structural clauses of C12 decided from MIR/HIR facts of the current tree: (R1) every parse of a "
@@ -269,7 +269,32 @@ def r6_container_readers_are_file_views(cx):
     cx.ob("R6", "R6/set_location/uses-global-offset", len(go) >= 1, g, "set_location locates the manifest in the file through the global offset of its reader")
 
 
+def r7_reader_accepts_what_the_writer_accepts(cx):
+    """the new location is read back: a location of any length the layout allows (0 .. the padded field of the
+    reference layout) that `set_location` has written is accepted by `PackInfo::parse` -- evaluated by constant
+    propagation with `location.len()` fixed to the boundary values: no explicit `Err(..)` of the parse is reachable"""
+    F = cx.F
+    f = layout.find_parse(F, "PackInfo")
+    b = F.body(f)
+    lens = b.calls(r"::len$")
+    maxlen = None
+    for path in ref.ref_layout("PackInfo", "r") or []:
+        for a in path:
+            if a[0] == "pstr_padded" and isinstance(a[1], int):
+                maxlen = a[1]
+    if maxlen is None or not lens:
+        raise AnchorLost("PackInfo: padded location field / len() of the parsed location not found")
+    explicit = b.err_return_blocks()
+    for n in (0, 1, maxlen - 1, maxlen):
+        r, _ = b.explore(assume_calls={r"::len$": n}, avoid=b.error_blocks())
+        rejected = sorted(b.ln(x) for x in explicit if x in r)
+        accepted = any(b.term(x)["k"] == "return" for x in r - explicit)
+        cx.ob("R7", "R7/PackInfo.parse/accepts-location-of-%d-bytes" % n, not rejected and accepted, f,
+              "with a stored location of %d bytes (admissible: the field holds up to %d) PackInfo::parse reaches its Ok return and no explicit rejection (lines %s)" % (n, maxlen, rejected))
+
+
 RULES = [
+    ("R7", r7_reader_accepts_what_the_writer_accepts, 4),
     ("R6", r6_container_readers_are_file_views, 3),
     ("R1", r1_header_offset, 4),
     ("R2", r2_mask, 3),
